@@ -1,38 +1,60 @@
-"""Apply each behaviour-preserving refactoring (written by independent sub-agents; the full
-test suite passes with each) to /repo, run every registered quick check, undo it.  Every check
-must stay at exit 0: anything else is a false alarm (exit 1) or a lost verdict (exit 2)."""
-import json, os, subprocess, sys, glob
+"""Apply each behaviour-preserving refactoring (written by independent sub-agents; the full test
+suite passes with each) to a scratch copy of /repo (removed afterwards), run every registered quick
+check on it.  Every check must stay at exit 0: anything else is a false alarm (exit 1) or a lost
+verdict (exit 2).  /repo itself is not touched.  usage: run_refactorings.py [-v] [id-prefix ...]"""
+import json, os, subprocess, sys, glob, shutil, tempfile
+from concurrent.futures import ThreadPoolExecutor
 VERIF = "/verif"
 only = [a for a in sys.argv[1:] if not a.startswith("-")]
 m = json.load(open(f"{VERIF}/MANIFEST.json"))
 props = [c["property_id"] for c in m["checks"]]
+
+
 def sh(cmd, **kw):
     return subprocess.run(cmd, shell=True, capture_output=True, text=True, **kw)
-assert sh("git -C /repo status --porcelain").stdout.strip() == "", "/repo not clean"
-summary = {}
-for patch in sorted(glob.glob(f"{VERIF}/refactorings/*/patch.diff")):
+
+
+def run(patch):
     rid = os.path.basename(os.path.dirname(patch))
-    if only and not any(rid.startswith(o) for o in only):
-        continue
-    r = sh(f"git -C /repo apply {patch}")
-    if r.returncode != 0:
-        print(rid, "APPLY FAILED", r.stderr[:200]); continue
+    tmp = tempfile.mkdtemp(prefix="mverif-refac-")
     try:
+        sh(f"rsync -a --exclude .git --exclude __pycache__ /repo/ {tmp}/")
+        r = sh(f"cd {tmp} && git init -q . 2>/dev/null; git apply {patch}")
+        if r.returncode != 0:
+            return rid, None, [f"APPLY FAILED {r.stderr[:200]}"]
         alarms, unknowns, lines = [], [], []
+        env = dict(os.environ, MVERIF_REPO=tmp)
         for p in props:
-            r = sh(f"/venv/bin/python -m mverif check {p} --no-evidence", cwd=VERIF)
+            r = sh(f"/venv/bin/python -m mverif check {p} --no-evidence", cwd=VERIF, env=env)
             if r.returncode == 1:
                 alarms.append(p)
             elif r.returncode == 2:
                 unknowns.append(p)
             if r.returncode:
                 lines += [l.strip()[:400] for l in r.stdout.splitlines() if l.startswith(("  mosaik", "ANALYSIS-ERROR", "  R", "   "))][:2]
-        summary[rid] = {"false_alarm_in": alarms, "no_verdict_in": unknowns}
-        print(f"{rid:10s} {'FALSE-ALARM' if alarms else 'NO-VERDICT' if unknowns else 'silent':12s} alarms={','.join(alarms) or '-'} unknown={','.join(unknowns) or '-'}")
-        if "-v" in sys.argv:
-            for l in sorted(set(lines)):
-                print("      ", l)
+        return rid, {"false_alarm_in": alarms, "no_verdict_in": unknowns}, sorted(set(lines))
     finally:
-        sh("git -C /repo checkout -- .")
-assert sh("git -C /repo status --porcelain").stdout.strip() == ""
-json.dump(summary, open(f"{VERIF}/refactorings/last_run.json", "w"), indent=1)
+        shutil.rmtree(tmp, ignore_errors=True)
+
+
+todo = [p for p in sorted(glob.glob(f"{VERIF}/refactorings/*/patch.diff")) if not only or any(os.path.basename(os.path.dirname(p)).startswith(o) for o in only)]
+summary = {}
+with ThreadPoolExecutor(max_workers=int(os.environ.get("JOBS", "12"))) as ex:
+    for rid, rec, lines in ex.map(run, todo):
+        if rec is None:
+            print(rid, lines)
+            continue
+        summary[rid] = rec
+        alarms, unknowns = rec["false_alarm_in"], rec["no_verdict_in"]
+        print(f"{rid:11s} {'FALSE-ALARM' if alarms else 'NO-VERDICT' if unknowns else 'silent':12s} alarms={','.join(alarms) or '-'} unknown={','.join(unknowns) or '-'}", flush=True)
+        if "-v" in sys.argv:
+            for l in lines:
+                print("      ", l)
+if only:
+    try:
+        prev = json.load(open(f"{VERIF}/refactorings/last_run.json"))
+    except Exception:
+        prev = {}
+    prev.update(summary)
+    summary = prev
+json.dump({k: summary[k] for k in sorted(summary)}, open(f"{VERIF}/refactorings/last_run.json", "w"), indent=1)
